@@ -24,7 +24,7 @@ From SK Require Import lib.Tok lib.LGraph model.C03_Model proof.C03_Spec proof.C
                        proof.C03_PairIdsComplete proof.C03_Wrap proof.C03_DefaultBalance
                        proof.C03_DefaultEnd proof.C03_DefaultWiring
                        model.C03_Order proof.C03_Ord proof.C03_FirstFit proof.C03_OrdEnd
-                       model.C03_Reactor proof.C03_ReactorProof proof.C03_ReactorSpec proof.C03_Capstone.
+                       model.C03_Reactor proof.C03_ReactorProof proof.C03_ReactorSpec proof.C03_Capstone proof.C03_LinkDefault.
 Import ListNotations.
 Local Open Scope Z_scope.
 
@@ -931,4 +931,33 @@ Print Assumptions C03_match_link_left.
 Theorem C03_left_of_rcb_implicit : forall tpl : its, NoDup (node_ids tpl) -> left_of_rcb tpl (fst (its_decompose tpl)) = true.
 Proof. exact left_of_rcb_dec. Qed.
 Print Assumptions C03_left_of_rcb_implicit.
+
+(** in the DEFAULT mode the hypotheses about the rule follow from the TEMPLATE (templates whose atoms have the same
+    element on both sides): the prepared rule is well formed, its bonds join its atoms, and its left graph is the reactant
+    side of its rule graph as far as matching goes *)
+Theorem C03_default_rule_hyps : forall (tpl rc : its) (l r : molg),
+  (forall (k : N) (a : inode), In (k, a) (gnodes tpl) -> a_el (iH a) = a_el (iG a)) ->
+  wf_rcb tpl = true -> edges_closedb tpl = true -> synrule tpl true = Some (rc, l, r) ->
+  wf_rcb rc = true /\ edges_closedb rc = true /\ left_of_rcb rc l = true.
+Proof. exact default_rule_hyps. Qed.
+Print Assumptions C03_default_rule_hyps.
+
+(** the property END TO END in the default mode, hypotheses on the TEMPLATE (well formed, same element on both sides of
+    every atom, [tpl_condition]), the SUBSTRATE (well formed) and the MATCHER'S CONTRACT ([call_okm]: its answers satisfy
+    match_okb on the left graph it was given) only: every graph its_list returns (= every Vits value of any script of
+    reads, C03_reads_stable) is an instance of the prepared rule in the sense of [instance_of] (written out in
+    C03_its_list_instances: substrate side, changed bonds, in-group hydrogen wiring) and conserves every element count
+    including hydrogen and the total charge *)
+Theorem C03_its_list_default_end_to_end : forall (inp : rin) (tpl rc : its) (l r : molg) (gs : list its),
+  i_rule inp = synrule tpl true -> synrule tpl true = Some (rc, l, r) ->
+  (forall (k : N) (a : inode), In (k, a) (gnodes tpl) -> a_el (iH a) = a_el (iG a)) ->
+  wf_rcb tpl = true -> edges_closedb tpl = true -> tpl_condition tpl ->
+  wf_hostb (i_host inp) = true -> forallb (call_okm (i_host inp) l) (i_calls inp) = true ->
+  spec_its inp = Some gs ->
+  forall g : its, In g gs ->
+    instance_of (i_host inp) rc g /\
+    (forall e : N, elem_count e (fst (its_decompose g)) = elem_count e (snd (its_decompose g))) /\
+    total_charge (fst (its_decompose g)) = total_charge (snd (its_decompose g)).
+Proof. exact its_list_default_end_to_end. Qed.
+Print Assumptions C03_its_list_default_end_to_end.
 
